@@ -136,6 +136,12 @@ def std_overrides(index: Index, config: dict[str, Any], backend: Model | None = 
 
         return inner
 
+    def passthrough_any(*args, **kwargs):
+        """jit(...) used as a function: returns its argument / a decorator returning it"""
+        if len(args) >= 1 and (isinstance(args[0], Closure) or callable(args[0])) and not isinstance(args[0], Model):
+            return args[0]
+        return lambda f: f
+
     return {
         "get_backend": lambda *a, **k: backend,
         "pde.get_backend": lambda *a, **k: backend,
@@ -148,6 +154,8 @@ def std_overrides(index: Index, config: dict[str, Any], backend: Model | None = 
         "pde.tools.docstrings.fill_in_docstring": passthrough,
         "module_available": lambda name: False,
         "register_jitable": passthrough,
+        "jit": passthrough_any,
+        "pde.backends.numba.utils.jit": passthrough_any,
     }
 
 
